@@ -196,7 +196,11 @@ Inductive proc :=
 | PDown                                (* crashed, not restarted yet *)
 | PFatal                               (* the loader refused to start *)
 | PIdle (m : mode)
-| PRun (p : list pop) (m : mode).      (* executing file operations, then in mode m *)
+| PRun (p : list pop) (m : mode)       (* executing file operations, then in mode m *)
+| PSeal (p : list pop) (evict : bool)  (* proxyFrac state "Sealing": frac.Seal is writing; evict = a retention pass
+                                          has pushed the fraction out meanwhile and waits in proxyFrac.Suicide (sealWg) *)
+| PPar (p q : list pop) (m : mode).    (* after the swap to the sealed instance: Active.Release (p) runs, possibly
+                                          overlapped with the deletion (q) the waiting/arriving Suicide performs *)
 
 Record st := mkstate { files : fs; hasdata : bool; doomed : bool; pr : proc }.
 
@@ -206,12 +210,15 @@ Definition mode_of (l : lkind) : mode :=
   match l with LNone => MGone | LSealed => MSealed | LActive => MActive end.
 
 (* the programs are parameters so that the pre-fix orders can be explored with the same machinery *)
-Record progs := mkprogs { pg_new : list pop; pg_asuicide : list pop; pg_ssuicide : list pop }.
-Definition cur_progs := mkprogs new_active_prog active_suicide_prog sealed_suicide_prog.
-Definition v0_progs := mkprogs new_active_prog_v0 active_suicide_prog_v0 sealed_suicide_prog.
-Definition v1_progs := mkprogs new_active_prog active_suicide_prog_v1 sealed_suicide_prog.
-Definition v2_progs := mkprogs new_active_prog active_suicide_prog_v2 sealed_suicide_prog.
-Definition nodel_progs := mkprogs new_active_prog active_suicide_prog sealed_suicide_prog_nodel.
+(* pg_stale: proxyFrac.Suicide drops the result of its second trySetSuicided (after sealWg.Wait) and
+   goes on with the Active instance it saw before the wait *)
+Record progs := mkprogs { pg_new : list pop; pg_asuicide : list pop; pg_ssuicide : list pop; pg_stale : bool }.
+Definition cur_progs := mkprogs new_active_prog active_suicide_prog sealed_suicide_prog false.
+Definition v0_progs := mkprogs new_active_prog_v0 active_suicide_prog_v0 sealed_suicide_prog false.
+Definition v1_progs := mkprogs new_active_prog active_suicide_prog_v1 sealed_suicide_prog false.
+Definition v2_progs := mkprogs new_active_prog active_suicide_prog_v2 sealed_suicide_prog false.
+Definition nodel_progs := mkprogs new_active_prog active_suicide_prog sealed_suicide_prog_nodel false.
+Definition stale_progs := mkprogs new_active_prog active_suicide_prog sealed_suicide_prog true.
 
 Definition restart (pg : progs) (sorted : bool) (s : st) (nonlast : bool) : st :=
   match load_prog_gen (pg_new pg) sorted (hasdata s) nonlast (files s) with
@@ -234,8 +241,40 @@ Definition next (pg : progs) (sorted : bool) (s : st) : list st :=
       [mkstate (files s) true (doomed s) (PIdle MActive);                                   (* a bulk was appended *)
        mkstate (files s) (hasdata s) (doomed s) (PRun (pg_asuicide pg) MGone); crash]      (* retention *)
       ++ (if hasdata s
-          then [mkstate (files s) true (doomed s) (PRun (seal_prog sorted ++ release_prog sorted) MSealed)]
+          then [mkstate (files s) true (doomed s) (PSeal (seal_prog sorted) false)]
           else [])
+  | PSeal p ev =>
+      let mk := mkstate (files s) (hasdata s) (doomed s) in
+      crash ::
+      (if ev then [] else [mk (PSeal p true)]) ++      (* retention evicts the fraction: Suicide waits for the seal *)
+      match p with
+      | o :: r =>
+          let f' := snd (step_pop o (files s)) in
+          [mkstate f' (hasdata s) (doomed s || any_del f') (PSeal r ev)]
+      | [] =>
+          (* f.sealed = sealed; f.active = nil; sealWg.Done(): Release starts, a waiting Suicide wakes up *)
+          if ev then
+            if pg_stale pg
+            then [mk (PPar (release_prog sorted) [] MGone);                (* stale Active already released: deletes nothing *)
+                  mk (PPar (release_prog sorted) (pg_asuicide pg) MGone)]  (* stale Active not yet released: Active.Suicide *)
+            else [mk (PPar (release_prog sorted) (pg_ssuicide pg) MGone)]
+          else [mk (PPar (release_prog sorted) [] MSealed)]
+      end
+  | PPar p q m =>
+      let stepl := match p with
+                   | o :: r => let f' := snd (step_pop o (files s)) in
+                               [mkstate f' (hasdata s) (doomed s || any_del f') (PPar r q m)]
+                   | [] => [] end in
+      let stepr := match q with
+                   | o :: r => let f' := snd (step_pop o (files s)) in
+                               [mkstate f' (hasdata s) (doomed s || any_del f') (PPar p r m)]
+                   | [] => [] end in
+      let fin := match p, q with [], [] => [mkstate (files s) (hasdata s) (doomed s) (PIdle m)] | _, _ => [] end in
+      (* retention arrives while Release is still running: Sealed.Suicide overlaps it *)
+      let late := match q, m with
+                  | [], MSealed => [mkstate (files s) (hasdata s) (doomed s) (PPar p (pg_ssuicide pg) MGone)]
+                  | _, _ => [] end in
+      crash :: stepl ++ stepr ++ fin ++ late
   | PIdle MSealed => [mkstate (files s) (hasdata s) (doomed s) (PRun (pg_ssuicide pg) MGone); crash]
   | PIdle MGone => [crash]
   end.
